@@ -207,8 +207,15 @@ def run(model: RepoModel, rep, tier: str):
         raise AnalysisError("update_current_state_bit vanished")
     # by role: a membership test `x not in <parameter>` guarding the collection of the kill set, and a lookup
     # frame.defined_states[<id>] feeding it
-    own = any(isinstance(n, ast.If) and isinstance(n.test, ast.Compare) and isinstance(n.test.ops[0], ast.NotIn)
-              and isinstance(n.test.comparators[0], ast.Name) and n.test.comparators[0].id in f.params for n in walk_no_nested(f.node))
+    from ..cfg import cfg_of as _cfg_of
+    _c = _cfg_of(f.node)
+    own = False
+    for _n in _c.g.nodes:
+        if any(isinstance(cl.func, ast.Attribute) and cl.func.attr == "add" for cl in _c.calls_at(_n)):
+            for atom, truth in _c.conditions_at(_n):
+                if isinstance(atom, ast.Compare) and len(atom.ops) == 1 and isinstance(atom.comparators[0], ast.Name) and atom.comparators[0].id in f.params \
+                        and ((isinstance(atom.ops[0], ast.NotIn) and truth) or (isinstance(atom.ops[0], ast.In) and not truth)):
+                    own = True
     byid = any(isinstance(x, ast.Subscript) and isinstance(x.value, ast.Attribute) and x.value.attr == "defined_states"
                for n in walk_no_nested(f.node) if isinstance(n, (ast.Assign, ast.For)) for x in ast.walk(n.value if isinstance(n, ast.Assign) else n.iter))
     (rep.holds if own and byid else rep.violation)("C09.R2", key, ps.rel, f.node.lineno,
